@@ -150,6 +150,13 @@ def run(chk):
     solver_whole.guarded(chk, 'C01', lambda: solver_whole.assembled(chk, repo, 'R01.16', None, 'R01.11', rule_span='R01.12'))
     if not any(not o.ok for o in chk.obls):
         chk.floor('R01.11', 20); chk.floor('R01.12', 20)
+    # ---- R01.19: the property is observed at `radial_solver(...).love` (and .k / .h / .l): the readers of the Love-number buffer hand back, for every requested type, the
+    #      three numbers the driver stored for that type (C03's reader rule, taken under C01)
+    from . import c03
+    from .common import RuleAlias
+    al19 = RuleAlias(chk, 'R01.19', lambda rule, inst: rule == 'R03.3' and inst.startswith('readers'))
+    c03.love_readers(al19, repo)
+    chk.floor('R01.19', 3)
     chk.floor('R01.1', 8 + 36 * 4 + 16 * 2 + 4 * 2); chk.floor('R01.2', 6); chk.floor('R01.3', 17); chk.floor('R01.5', 3)
     chk.assume('r, rho, g, K, omega > 0; mu complex; l treated as a symbolic real')
 
